@@ -583,6 +583,13 @@ struct Driver {
                     if (same(V(*mi), victim)) { m.erase(mi); done = true; break; }
                 if (!done) diff("erase(iterator)", "erased entry " + show(victim) + " not in the model");
                 post(w, "erase-iterator");
+                // the separators above the erased position must route the erased key past it
+                { K vk = key_of(victim);
+                  trace.push_back("lower_bound/upper_bound/find of the key just erased");
+                  same_pos(t, m, t.lower_bound(vk), m.lower_bound(vk), "lower_bound-after-erase-iterator");
+                  same_pos(t, m, t.upper_bound(vk), m.upper_bound(vk), "upper_bound-after-erase-iterator");
+                  if ((ct.find(vk) == ct.end()) != (cm.find(vk) == cm.end())) diff("find-after-erase-iterator", show(victim));
+                  verif::count("probes_after_erase_iterator"); }
             }
         }
         else if (r < 88) {                                  // queries
@@ -784,8 +791,23 @@ struct Driver {
         std::reverse(g_table2.begin(), g_table2.begin() + 5003);
         try {
             build_fresh(0); build_fresh(1);
+            // a third of the histories start from a tree built by sequential inserts (every node as
+            // empty as the tree allows, several inner levels) and shrink it first: each erase then
+            // underflows a leaf, and merges and shifts cascade through the inner levels
+            bool seq = universe >= 300 && rng.chance(1, 3);
+            if (seq) {
+                size_t N = 100 + rng.below((size_t)std::min(universe, 700) - 100);
+                bool up = rng.coin();
+                trace.push_back("sequential build of " + std::to_string(N) + (up ? " ascending" : " descending") + " ids");
+                for (size_t i = 0; i < N; ++i) {
+                    V v = make_value((int)(up ? i : N - 1 - i));
+                    c[0].t->insert(v); c[0].m->insert(v);
+                }
+                post(0, "sequential-build");
+                verif::count("histories_from_sequential_build");
+            }
             for (size_t i = 0; i < nops; ++i) {
-                if (i % 150 == 0) phase = (int)rng.below(3);
+                if (i % 150 == 0) phase = (seq && i < 450) ? 1 : (int)rng.below(3);
                 if (c[0].m->size() > 900) phase = 1;
                 op(rng.chance(3, 4) ? 0 : 1);
                 if (verif::case_failed()) break;
